@@ -517,6 +517,70 @@ fn case(cfg: &Config, alg: Algorithm, old: &[u8], new: &[u8], renders: &[Render]
             }
         }
     }
+    // CALLER-SUPPLIED line items (diff_slices + newline_terminated(true)) in which INTERIOR items lack their
+    // terminator as well: the marker must follow exactly the items lacking one, and the hunks must apply
+    // strictly to the caller's items (hint on)
+    {
+        let strip = |l: &[u8]| -> usize {
+            if l.ends_with(b"\r\n") {
+                l.len() - 2
+            } else if l.ends_with(b"\n") || l.ends_with(b"\r") {
+                l.len() - 1
+            } else {
+                l.len()
+            }
+        };
+        let items = |t: &[u8], salt: usize| -> Vec<Vec<u8>> {
+            crate::patch_ref::physical_lines(t)
+                .into_iter()
+                .enumerate()
+                .map(|(i, l)| {
+                    let h = (i * 7 + l.len() * 3 + salt) % 4;
+                    if h == 0 && strip(l) > 0 { l[..strip(l)].to_vec() } else { l.to_vec() }
+                })
+                .collect()
+        };
+        let (ia, ib) = (items(old, 1), items(new, 2));
+        if ia != ib && ia.iter().chain(ib.iter()).all(|l| !l.is_empty()) {
+            let ra: Vec<&[u8]> = ia.iter().map(|v| &v[..]).collect();
+            let rb: Vec<&[u8]> = ib.iter().map(|v| &v[..]).collect();
+            let new_concat: Vec<u8> = ib.concat();
+            for &r in renders.iter().filter(|r| r.hint).take(1) {
+                out.eval();
+                out.count("caller_item_renderings");
+                let res = guard(|| {
+                    let mut c = TextDiff::configure();
+                    c.algorithm(alg).newline_terminated(true);
+                    let d = c.diff_slices(&ra, &rb);
+                    let mut u = d.unified_diff();
+                    u.context_radius(r.radius).missing_newline_hint(true);
+                    let mut w = Vec::new();
+                    u.to_writer(&mut w).unwrap();
+                    (w, vh::swaps())
+                });
+                match res {
+                    Err(p) => out.violation("panic", format!("diff_slices over caller items panicked: {} | old items={:?} new items={:?}", p, ia.iter().map(|x| show(x)).collect::<Vec<_>>(), ib.iter().map(|x| show(x)).collect::<Vec<_>>())),
+                    Ok((w, _)) => {
+                        let fails = match patch_ref::parse(&w, None, true) {
+                            Err((code, msg)) => vec![(code, msg)],
+                            Ok(p) => patch_ref::apply_strict_lines(&ra, &new_concat, &p, r.radius, true),
+                        };
+                        // header positions of swapped pairs are KF1 territory (decided on the main path above)
+                        if fails.iter().any(|(c, _)| c.starts_with("patch.header_")) {
+                            out.count("caller_item_header_failures_left_to_the_main_path");
+                        } else {
+                            for (code, msg) in &fails {
+                                out.violation(code, format!("(caller-supplied line items, some interior ones without terminator, newline_terminated(true)) {} | rendered {} | alg={} radius={} old items={:?} new items={:?}", msg, show(&w), alg_name(alg), r.radius, ia.iter().map(|x| show(x)).collect::<Vec<_>>(), ib.iter().map(|x| show(x)).collect::<Vec<_>>()));
+                            }
+                            if fails.is_empty() {
+                                out.count("caller_item_renderings_applied_strictly");
+                            }
+                        }
+                    }
+                }
+            }
+        }
+    }
     // udiff::unified_diff helper (str only)
     if valid {
         let so = std::str::from_utf8(old).unwrap();
